@@ -531,7 +531,7 @@ class Flow:
     decides whether a tainted argument taints the call's destination."""
 
     def __init__(self, fn, table=None, through_agg=True, through_bin=True, through_field=True,
-                 call_transfer=None):
+                 call_transfer=None, skip_variants=(), agg_filter=None):
         self.fn = fn
         self.du = defuse(fn)
         self.table = table
@@ -539,6 +539,20 @@ class Flow:
         self.through_bin = through_bin
         self.through_field = through_field
         self.call_transfer = call_transfer
+        self.skip_variants = set(skip_variants)
+        self.agg_filter = agg_filter
+
+    def _reads_skipped_variant(self, rv, l):
+        """The statement reads local l only through a downcast to an excluded variant (e.g. the Err/Break payload)."""
+        ops, places = rv_operands(rv)
+        pls = [op_place(o) for o in ops if op_place(o) is not None] + places
+        mine = [p for p in pls if p["l"] == l]
+        if not mine:
+            return False
+        for p in mine:
+            if not any(isinstance(e, dict) and e.get("dc") in self.skip_variants for e in p.get("p", [])):
+                return False
+        return True
 
     def run(self, seeds):
         tainted = set(seeds)
@@ -568,9 +582,13 @@ class Flow:
                     k = rv["k"]
                     if k == "agg" and not self.through_agg:
                         continue
+                    if k == "agg" and self.agg_filter is not None and not self.agg_filter(rv):
+                        continue
                     if k == "bin" and not self.through_bin:
                         continue
                     if k == "discr":
+                        continue
+                    if self.skip_variants and self._reads_skipped_variant(rv, l):
                         continue
                     if not self.through_field:
                         # reading a field of the tainted local does not propagate
